@@ -199,6 +199,14 @@ T.update({
  'C19_i': dict(change='GenerateKey substitutes crypto/rand.Reader for a nil source', needs='GenerateKey(nil) returns a key and no error', strengthened='no'),
 })
 
+T.update({
+ 'C04_j': dict(change='sm3 Sum finalises on the receiver and restores h, nx and len afterwards, but not the block buffer x', needs='Sum with 56..63 bytes pending (padding spills into a second block and zeroes x[0:56]) followed by a second Sum or by Write+Sum on the same hash', strengthened='no'),
+ 'C15_j': dict(change='SM2Point.bytes takes the infinity shortcut when X or Z is zero', needs='one of the two finite points with x = 0, (0, +-sqrt(b)), in any projective representative: encoded as the single byte 00, round trip broken', strengthened='YES: the symbolic obligation failed (Bytes.infinity, Bytes_Unsafe.infinity) but the special pairs of the replay had no point with a zero coordinate (reported INCONCLUSIVE); the pairs now contain (0, +-sqrt(b)) as operands and as results of additions with Z != 1'),
+ 'C17_j': dict(change='tag-only branch of Open hands openAsm a 32-byte scratch field of the shared sm4GcmAsm value instead of the stack array', needs='two goroutines running Open on ciphertext == tag through one AEAD; invisible to the race detector (assembly writes)', strengthened='no'),
+ 'C18_j': dict(change='y coordinate of one entry (sub table 3, window value 91) of the unused 7_3_12 comb table replaced by p - y', needs='use or enumeration of the 7_3_12 scheme (benchmark only)', strengthened='no'),
+ 'C20_j': dict(change='getBits high-byte mask (1<<bitsHi)-1 became 0x3f >> (6-bitsHi), zero at bitsHi == 7', needs='DecomposeNAF with w = 7 and a digit starting at bit 7 of a byte with low bits of the next byte set (the library only uses w = 4)', strengthened='no'),
+})
+
 for name, t in sorted(T.items()):
     d = os.path.join(S, name)
     if not os.path.isdir(d):
